@@ -584,4 +584,72 @@ theorem commit_establishes_cacheDb (H : RootPre → String) (l l1 : L) (h : Nat)
     exact hD a m k v hm hk
 
 
+theorem commit_accounts {l l' : L} (hh : Nat) (f : Flushed) (hc : Ledger.commit l hh f = some l') : l'.accounts = l.accounts := by
+  unfold Ledger.commit at hc
+  split at hc
+  · cases hc
+  · injection hc with hc
+    subst hc
+    generalize instDecidableEqNat l.minJ 0 = d
+    cases d <;> simp only [pruneJournals] <;> (repeat' split) <;> rfl
+
+/-- **`Commit` changes no read**: after the flush of a block the account cache holds every value the block wrote; the commit moves
+them into the database and leaves the cache alone — every storage key of every account reads after the commit what it read after
+the flush (up to nil / empty) -/
+theorem commit_keeps_reads (H : RootPre → String) (l l1 : L) (h : Nat) (hC : ObjCoh l)
+    (hc : commit (flush H l).1 h (flush H l).2 = some l1) (hacc : l1.accounts = []) (a : Addr) (k : String) :
+    (peekState l1 a k).getD "" = (peekState (flush H l).1 a k).getD "" := by
+  obtain ⟨e1, e2⟩ := commit_state_cache h (flush H l).2 hc
+  have hst : l1.db.state = (commits (flushItems l) l.db).state := by rw [e1]; rfl
+  have hnd : ((flushItems l).map (·.1)).Nodup := (flushItems_sublist l l.accounts).nodup hC.nodup
+  rw [peekState_no_objects l1 hacc, peekState_no_objects (flush H l).1 rfl]
+  unfold below
+  rw [e2]
+  cases hb : (KV.get (flush H l).1.cache.state a).bind (fun m => KV.get m k) with
+  | some cv => rfl
+  | none =>
+    simp only
+    rw [hst]
+    show ((KV.get (commits (flushItems l) l.db).state (a, k) : Bytes)).getD "" = ((KV.get l.db.state (a, k) : Bytes)).getD ""
+    rw [flush_cache] at hb
+    by_cases hin : ∃ x, (a, x) ∈ flushItems l
+    · obtain ⟨x, hx⟩ := hin
+      obtain ⟨acc, hacc', _, hxe⟩ := mem_flushItems hx
+      have hga : KV.get l.accounts a = some acc := by
+        cases hg : KV.get l.accounts a with
+        | none => exact absurd hacc' (fun hmem => KV.not_mem_of_get_none hg _ hmem rfl)
+        | some acc' =>
+          have := KV.unique_of_nodup hC.nodup (k := a) hacc' (KV.mem_of_get hg)
+          rw [this]
+      have hds : x.dirtyState = acc.dirtyState := by rw [hxe]; exact loadOrigin_dirtyState l a acc
+      have hos : x.originState = acc.originState := by rw [hxe]; unfold loadOrigin; split <;> rfl
+      -- the key was not written by the block: a written key is in the cache
+      have hnw : ¬ ∃ p ∈ acc.dirtyState, p.1 = k := by
+        rintro ⟨p, hp, hpk⟩
+        have hv : ∀ q ∈ acc.dirtyState, q.1 = k → q.2 = p.2 := by
+          intro q hq hqk
+          exact KV.unique_of_nodup (hC.dnodup a acc hga) (k := k) (by rw [← hqk]; exact hq) (by rw [← hpk]; exact hp)
+        obtain ⟨m', hm', hk'⟩ := cacheFold_state (flushItems l) l.cache a x k p.2 hnd hx
+          (by rw [hds]; exact ⟨p, hp, hpk⟩) (by rw [hds]; exact hv)
+        rw [hm'] at hb
+        simp only [Option.bind_some, hk'] at hb
+        cases hb
+      obtain ⟨pre, post, hsplit⟩ := List.append_of_mem hx
+      have hnd2 : ((pre.map (·.1)) ++ a :: post.map (·.1)).Nodup := by rw [hsplit] at hnd; simpa using hnd
+      have hpre : ∀ q ∈ pre, q.1 ≠ a := by
+        intro q hq e
+        exact (List.nodup_append.mp hnd2).2.2 q.1 (List.mem_map.mpr ⟨q, hq, rfl⟩) a (List.mem_cons_self ..) e
+      have hpost : ∀ q ∈ post, q.1 ≠ a := by
+        intro q hq e
+        have h2 := (List.nodup_cons.mp (List.nodup_append.mp hnd2).2.1).1
+        exact h2 (by rw [← e]; exact List.mem_map.mpr ⟨q, hq, rfl⟩)
+      rw [hsplit, commits_append]
+      show ((KV.get (commits post (commitAcct (commits pre l.db) a x)).state (a, k) : Bytes)).getD "" = _
+      rw [(commits_frame post _ a hpost).2.2 k, commitAcct_state, hds, hos,
+        commitState_untouched a a k acc.originState acc.dirtyState _ (Or.inr (fun p hp _ e => hnw ⟨p, hp, e⟩)),
+        (commits_frame pre l.db a hpre).2.2 k]
+    · have hno : ∀ p ∈ flushItems l, p.1 ≠ a := fun p hp e => hin ⟨p.2, by rw [← e]; exact hp⟩
+      exact (commits_frame (flushItems l) l.db a hno).2.2 k
+
+
 end Bxh.Ledger
